@@ -37,7 +37,7 @@ Definition c07f_check (c : c07fcase) : bool :=
       match parse_file input true with
       | Ok p => match pdiags p, ptree p with
                 | [], Some body => negb from_parser && negb (match es with [] => true | _ => false end)
-                                   && forallb (span_from body) es
+                                   && forallb (err_span_from body) es
                 | d :: ds, _ => from_parser && list_eqb span_eqb (map diag_span (d :: ds)) es
                 | _, _ => false
                 end
